@@ -31,9 +31,15 @@ Accepted(e) ==
           ELSE IF StuckReason(e.end) = "divzero" THEN TRUE
           ELSE Bad(<<"C01", "stuck", StuckReason(e.end), "holes_opened", e.holes_opened, "has_hole", HasHole(e.end)>>))
      ELSE IF Step(e.end).r = "step" \/ ~IsValue(e.end) THEN Bad(<<"C02", "reported as a value although it is not one">>)
-     ELSE LET iv == Infer(e.end, <<>>, FUEL) IN
-          IF i.r = "ok" /\ (iv.r = "ill" \/ (iv.r = "ok" /\ ConvH(iv.ty, e.ty, <<>>, FUEL).r = "no"))
-          THEN Bad(<<"C04", "the value does not have the reported type", "holes_opened", e.holes_opened>>) ELSE TRUE
+     ELSE LET iv == Infer(e.end, <<>>, FUEL)
+              \* the independent big-step semantics on the elaborated program (ground results of short runs)
+              sem == IF e.end.k \in {"lit", "true", "false"} /\ e.nsteps <= 300 /\ ~HasHole(e.elab) THEN Ev(e.elab, <<>>, <<>>, 6000) ELSE [r |-> "skip"]
+          IN
+          /\ IF i.r = "ok" /\ (iv.r = "ill" \/ (iv.r = "ok" /\ ConvH(iv.ty, e.ty, <<>>, FUEL).r = "no"))
+             THEN Bad(<<"C04", "the value does not have the reported type", "holes_opened", e.holes_opened>>) ELSE TRUE
+          /\ IF sem.r = "ok" /\ ~( (e.end.k = "lit" /\ sem.v.v = "lit" /\ sem.v.n = e.end.v) \/ (e.end.k = "true" /\ sem.v.v = "bool" /\ sem.v.b) \/ (e.end.k = "false" /\ sem.v.v = "bool" /\ ~sem.v.b) )
+             THEN Bad(<<"C02", "value differs from the big-step environment semantics">>)
+             ELSE IF sem.r = "err" THEN Bad(<<"C02", "the big-step semantics is stuck where the program produced a value", sem.why>>) ELSE TRUE
 Rejected(e) ==
   LET src == IF IsNone(e.src) THEN e.gen ELSE e.src IN
   /\ IF e.nerr < 1 THEN Bad(<<"C14", "rejected without a diagnostic">>) ELSE TRUE
